@@ -654,6 +654,27 @@ def saturated_programs() -> tuple[str, ...]:
     out.append('r = f"{a}{b!r}{c:>{w}.{p}}{d=}{e!s:{f}}"\nr = "a" "b" f"{c}"\nr = (x := 1) + (y := x)\nr = a if b else c if d else e\nr = a < b <= c != d is not e not in f\n'
                'r = a and b or not c and (d or e)\nr = -a ** +b @ ~c // d % e << f >> g & h ^ i | j\nr = a.b.c(d).e[f].g\nr = *a, *b\nr = ()\nr = (a,)\nr = [[], [[]]]')
 
+    # call / class-base argument interleavings: every valid order of up to 6 arguments over {positional, *starred, keyword, **mapping}
+    calls = []
+
+    for n in (3, 4, 5, 6):
+        for combo in itertools.product('p*k2', repeat=n):
+            if n > 4 and ('*' not in combo or 'k' not in combo):
+                continue  # long ones only when starred and keyword arguments interleave
+
+            txt = ', '.join({'p': f'p{i}', '*': f'*s{i}', 'k': f'k{i}=v{i}', '2': f'**d{i}'}[c] for i, c in enumerate(combo))
+
+            try:
+                ast.parse(f'f({txt})')
+            except SyntaxError:
+                continue
+
+            calls.append(txt)
+
+    for i in range(0, len(calls), 12):
+        chunk = calls[i:i + 12]
+        out.append('\n'.join(f'r{j} = f({c})' for j, c in enumerate(chunk)) + f'\nclass C({chunk[0]}): pass')
+
     good = []
 
     for src in out:
